@@ -16,9 +16,72 @@ pub struct SimCheck {
     pub nontrivial: fn(&Stats) -> bool,
 }
 
+/// Record shapes for C08: directed boundary sizes first, then pseudo-random ones derived from the index.
+pub fn shape_of(u: u64) -> (usize, usize, usize, bool, usize) {
+    const DIRECTED: [(usize, usize, usize, bool, usize); 14] = [
+        (1, 0, 4, false, 0),
+        (1, 1, 4, false, 1),
+        (2, 255, 8, false, 0),
+        (3, 256, 8, true, 1),
+        (40, 3, 300, true, 2),
+        (1, 65535, 12, false, 0),
+        (1, 2, 4000, true, 0),
+        (17, 257, 40, false, 3),
+        (1, 1000, 700, true, 1),
+        (33, 0, 9, true, 0),
+        (2, 4097, 10, false, 0),
+        (1, 32767, 12, false, 1),
+        (1, 32768, 12, false, 0),
+        (5, 70, 1200, false, 2),
+    ];
+    if (u as usize) < DIRECTED.len() {
+        return DIRECTED[u as usize];
+    }
+    let mut x = u.wrapping_mul(0x9E3779B97F4A7C15) ^ 0xD1B54A32D192ED03;
+    let mut next = |n: u64| {
+        x ^= x << 13;
+        x ^= x >> 7;
+        x ^= x << 17;
+        (x % n) as usize
+    };
+    let nouts = 1 + next(40);
+    let ndeps = [0, 1, 2, 5, 30, 254, 255, 256, 257, 600][next(10)] + next(3);
+    let namelen = [4, 12, 60, 255, 256, 1000, 3000][next(7)];
+    (nouts, ndeps, namelen, next(2) == 1, next(4))
+}
+
 impl Check for SimCheck {
     fn id(&self) -> &'static str {
         self.id
+    }
+    fn run_unit(&mut self, _part: &str, u: u64, env: &mut Env) -> CaseOut {
+        let (nouts, ndeps, namelen, mb, extra) = shape_of(u);
+        let out = run_shape_case(nouts, ndeps, namelen, mb, extra, &env.dir);
+        CaseOut { viols: out.viols, nontrivial: true, fp: fnv_str(&out.fp_text), classes: vec!["shape".into()], desc: out.desc, evals: out.stats.invocations.max(1), ..Default::default() }
+    }
+    fn run_replay(&mut self, _part: &str, replay: &serde_json::Value, env: &mut Env) -> CaseOut {
+        if replay["scenario"] == "F10" {
+            let out = run_f10_scenario(&env.dir);
+            return CaseOut { viols: out.viols, nontrivial: true, fp: 10, desc: out.desc, evals: 1, ..Default::default() };
+        }
+        // {"shape": [nouts, ndeps, namelen, multibyte, extra]}
+        let s = &replay["shape"];
+        let g = |i: usize| s[i].as_u64().unwrap_or(1) as usize;
+        let mut out = run_shape_case(g(0).max(1), g(1), g(2), s[3].as_bool().unwrap_or(false), g(4), &env.dir);
+        if g(1) > 65535 {
+            // listed finding F7: the count field of a record is 16 bits wide
+            for v in out.viols.iter_mut().filter(|v| v.prop == "C08") {
+                v.key = "dep-count-over-65535".into();
+            }
+        }
+        CaseOut { viols: out.viols, nontrivial: true, fp: fnv_str(&out.fp_text), desc: out.desc, evals: 1, ..Default::default() }
+    }
+    fn pinned(&self) -> Vec<(String, &'static str, serde_json::Value)> {
+        match self.id {
+            "C08" => vec![("dep-count-over-65535".into(), "shapes", serde_json::json!({"shape": [1, 65536, 12, false, 0]}))],
+            "C18" => vec![("unknown-target-known-from-log".into(), "hist", serde_json::json!({"scenario": "F10"}))],
+            _ => vec![],
+        }
     }
     fn rule(&self) -> String {
         self.rule.to_string()
@@ -33,10 +96,17 @@ impl Check for SimCheck {
         3
     }
     fn parts(&self, tier: Tier) -> Vec<Part> {
-        vec![Part { name: "hist", kind: PartKind::Random { cases: tier.pick(self.quick, self.thorough), main: 120, ops: 7, oplen: 40, sched: 60 } }]
+        let mut v = vec![Part { name: "hist", kind: PartKind::Random { cases: tier.pick(self.quick, self.thorough), main: 120, ops: 7, oplen: 40, sched: 60 } }];
+        if self.id == "C08" {
+            v.push(Part { name: "shapes", kind: PartKind::Enum { units: tier.pick(600, 6000) } });
+        }
+        if self.id == "C06" {
+            v.push(Part { name: "cycles", kind: PartKind::Random { cases: tier.pick(self.quick, self.thorough) / 2, main: 100, ops: 1, oplen: 40, sched: 30 } });
+        }
+        v
     }
     fn run_random(&mut self, _part: &str, case: &Case, env: &mut Env) -> CaseOut {
-        let out = run_history(case, &self.prof, &env.dir, self.id, &env.known);
+        let out = if _part == "cycles" { run_cycle_case(case, &env.dir) } else { run_history(case, &self.prof, &env.dir, self.id, &env.known) };
         let nontrivial = (self.nontrivial)(&out.stats);
         let mut classes: Vec<String> = out.stats.classes.iter().cloned().collect();
         if nontrivial {
